@@ -746,6 +746,8 @@ class LiteralEncoder(BaseEncoder):
     @classmethod
     def condition(cls, ref, writer):
         value = ref.value
+        if ref.refmode not in (None, "auto"):
+            return False    # PickleEncoder to keep the reference mode
         return any(type(value) is t for t in cls.literal_types)
 
     def encode(self):
@@ -808,6 +810,9 @@ class PickleEncoder(BaseEncoder):
             self.writer.pickledata[key] = value
 
     def encode(self):
+        if self.target.refmode not in (None, "auto"):
+            return "(\"Pickle\", %s, \"%s\")" % (
+                id(self.target.value), self.target.refmode)
         return "(\"Pickle\", %s)" % id(self.target.value)
 
     def instruct(self):
